@@ -32,6 +32,13 @@ claimed.update({
     "C01": dict(text="Decision layer only: the real cds/eds/lds/rdsNeedsPush are monotone under request merging (batching never loses a push a constituent change required) for every pair of requests "
                      "(every config kind, symbolic names, every trigger reason, sidecar/router/waypoint), and a forced request pushes every type and is never filtered.",
                 note="Outside (stated): equality of resources that are not resent, end-to-end stream convergence (needs generator read-sets).", ref="§4 C01"),
+    "C09": dict(text="CreateCertificate binds SANs to exactly the authenticated identities (or the single impersonated identity after the node authorizer accepted it), never to CSR text or other metadata, ForCA is never set, "
+                     "unauthenticated callers never reach the signer; the per-cluster impersonation gate accepts only trusted callers whose pod exists with matching UID/SA and only identities running on the caller's node; "
+                     "the OIDC authenticator never crashes on any verified subject and derives the identity only from a well-formed system:serviceaccount:ns:sa subject with a matching audience.",
+                note="Outside: X.509/ASN.1/PEM/crypto, token signature verification, TTL clamping (IstioCA.sign) unless listed in the evidence.", ref="§4 C09"),
+    "C17": dict(text="Every canonicalising sort (configs, DestinationRules, Services) returns the same sequence for all 6 input permutations of 3 objects with symbolic creation times (ties allowed) and symbolic names; "
+                     "the comparator is antisymmetric/transitive/zero only on identical identity; EndpointShards.Keys is ordered for every map iteration order.",
+                note="Outside: protobuf marshalling, ordering inside the big generators, cross-process identity.", ref="§4 C17"),
     "C19": dict(text="injectRequired decided against the documented precedence for every combination of hostNetwork, namespace vs ignored list, label/annotation presence and arbitrary values, 0-2 never/always selectors with arbitrary validity/emptiness/match, and arbitrary policy string.",
                 note="Outside: idempotent re-injection and container preservation (template/YAML/JSON-patch machinery).", ref="§4 C19"),
 })
